@@ -1314,9 +1314,23 @@ func (ctx *RenderContext) evaluateNode(node Node) (interface{}, error) {
 func sortedMapKeys(m reflect.Value) []reflect.Value {
 	keys := m.MapKeys()
 	sort.SliceStable(keys, func(i, j int) bool {
-		return mapKeyLess(keys[i], keys[j])
+		if c := mapKeyCompare(keys[i], keys[j]); c != 0 {
+			return c < 0
+		}
+		// keys that cannot be told apart by what they print (two pointers to
+		// equal values): by what they are mapped to, so that the order does not
+		// follow Go's map order or the addresses
+		return stableValueText(m.MapIndex(keys[i])) < stableValueText(m.MapIndex(keys[j]))
 	})
 	return keys
+}
+
+// stableValueText is stableString for a value that may not be taken out of its
+// container (an unexported field)
+func stableValueText(v reflect.Value) string {
+	var sb strings.Builder
+	writeStable(&sb, v, 0, nil)
+	return sb.String()
 }
 
 // mapKeyLess is a total order on map keys: numbers (by value, then by kind)
@@ -1366,7 +1380,9 @@ func mapKeyCompare(a, b reflect.Value) int {
 			c = cmp(fa < fb, fa > fb)
 		}
 	default:
-		sa, sb := fmt.Sprint(a), fmt.Sprint(b)
+		// (by the address-free text: a pointer key is ordered by what it points
+		// at, not by where that lies in memory)
+		sa, sb := stableValueText(a), stableValueText(b)
 		c = cmp(sa < sb, sa > sb)
 	}
 	if c != 0 {
